@@ -56,6 +56,35 @@ def cursorTests (path : String) : IO Unit := do
         showS (Src.OplParserFunctions.opl_parse_escaped_defined fuel buf 0 [0x52]) (Src.OplParserFunctions.opl_parse_escaped fuel buf 0 [0x52])
       if kind == "oplstring" then
         showS (Src.OplParserFunctions.opl_parse_string_defined fuel buf 0 [0x52]) (Src.OplParserFunctions.opl_parse_string fuel buf 0 [0x52])
+      if kind == "oplchar" then
+        match unhex hex with
+        | c :: rest =>
+          let cI : Int := if c.toNat < 128 then c.toNat else (c.toNat : Int) - 256
+          showU (Src.OplParserFunctions.opl_parse_char_defined (rest ++ [0]) 0 cI) (Src.OplParserFunctions.opl_parse_char (rest ++ [0]) 0 cI)
+        | _ => pure ()
+      if kind == "hex2" || kind == "hexmin4" then
+        match unhex hex with
+        | [a, b1, c, d] =>
+          let v : Int := ((a.toNat * 16777216 + b1.toNat * 65536 + c.toNat * 256 + d.toNat : Nat) : Int)
+          let tbl : List UInt8 := "0123456789abcdef".toUTF8.toList ++ [0]
+          let (dd, o) := if kind == "hex2" then (Src.StringUtil.append_2_hex_digits_defined tbl [0x52] v 0, Src.StringUtil.append_2_hex_digits tbl [0x52] v 0)
+                         else (Src.StringUtil.append_min_4_hex_digits_defined 10 tbl [0x52] v 0, Src.StringUtil.append_min_4_hex_digits 10 tbl [0x52] v 0)
+          if !dd then IO.println s!"{kind} {hex} UNDEFINED"
+          else match o with
+            | .normal r _ => IO.println s!"{kind} {hex} ok {hexs r} 0"
+            | .thrown e _ => IO.println s!"{kind} {hex} {e}"
+            | .nofuel => IO.println s!"{kind} {hex} NOFUEL"
+        | _ => pure ()
+      if kind == "oplenc" then
+        let bytes := unhex hex
+        let ebuf : List UInt8 := bytes ++ [0] ++ "0123456789abcdef".toUTF8.toList ++ [0]
+        let h : Int := bytes.length + 1
+        if !(Src.StringUtil.append_utf8_encoded_string_lits ebuf [0x52] 0 h) then IO.println s!"oplenc {hex} NOLITS"
+        else if !(Src.StringUtil.append_utf8_encoded_string_defined (fuel + 10) ebuf [0x52] 0 h) then IO.println s!"oplenc {hex} UNDEFINED"
+        else match Src.StringUtil.append_utf8_encoded_string (fuel + 10) ebuf [0x52] 0 h with
+          | .normal r _ => IO.println s!"oplenc {hex} ok {hexs r} 0"
+          | .thrown e r => IO.println s!"oplenc {hex} {e} {hexs r} 0"
+          | .nofuel => IO.println s!"oplenc {hex} NOFUEL"
       if kind == "cpenc" then
         match unhex hex with
         | [a, b1, c, d] =>
